@@ -435,6 +435,10 @@ pub struct Encoder {
 	pub fault_node: Option<usize>,
 	pub fault_rng: Option<Rng>,
 	pub fault_desc: Option<&'static str>,
+	/// record the output offset of every struct with this name (used to locate instrumented
+	/// elements inside an encoding)
+	pub watch_struct: Option<&'static str>,
+	pub watch_positions: Vec<usize>,
 }
 
 pub fn spec_encode(ty: &Ty, v: &Val) -> Vec<u8> {
@@ -488,6 +492,8 @@ impl Encoder {
 			fault_node: None,
 			fault_rng: None,
 			fault_desc: None,
+			watch_struct: None,
+			watch_positions: Vec::new(),
 		}
 	}
 
@@ -745,7 +751,12 @@ impl Encoder {
 				_ => mismatch(ty, v),
 			},
 			(Ty::Ptr(t, _), x) => self.enc(t, x),
-			(Ty::Struct { fields, .. }, Val::Tuple(xs)) => self.fields(fields, xs),
+			(Ty::Struct { fields, name }, Val::Tuple(xs)) => {
+				if self.watch_struct == Some(name.as_str()) {
+					self.watch_positions.push(self.out.len());
+				}
+				self.fields(fields, xs)
+			},
 			(Ty::Enum { variants, .. }, Val::Variant(i, xs)) => {
 				let var = &variants[*i];
 				if var.skipped {
